@@ -1,5 +1,6 @@
 """C12 — DTCWT options only re-arrange or select outputs; pyramids are prefix-consistent."""
 import numpy as np
+import torch
 from .. import rt, gen, proto
 from .. import oracle_dtcwt as OD
 from ..dtcwt_common import *
@@ -86,20 +87,24 @@ def oracle_prefix(ck, filt, x, J):
     return None
 
 
-def oracle_masks_special(ck, b, s, J, shape, val, skm, inm):
+def oracle_masks_special(ck, b, s, J, shape, val, skm, inm, dt=None):
     """the option identities on an image with ONE non-finite pixel: a skipped level leaves the low-pass and the other levels exactly as
     they are (same values, same non-finite footprint), a requested scale is the low-pass of the shorter transform"""
     import torch
     from pytorch_wavelets import DTCWTForward
     x = gen.float_tensor(ck.nprng, (1, 1) + tuple(shape)); pos = (shape[0] // 2, shape[1] // 2 + 1)
-    x[(0, 0) + pos] = val
-    xt = torch.tensor(x, dtype=torch.float64)
-    desc = 'DTCWTForward(%s/%s, J=%d) skip_hps=%s include_scale=%s on a %s image with %r at %s' % (b, s, J, bin(skm), bin(inm), tuple(shape), val, pos)
-    replay = {'oracle': 'masks-special', 'b': b, 's': s, 'J': J, 'shape': list(shape), 'val': repr(val), 'skm': skm, 'inm': inm, 'note': 'image drawn from the check PRNG'}
+    dt = dt or torch.float64
+    if val is not None:
+        x[(0, 0) + pos] = val
+    else:
+        x = x * 4.0 + 100.0          # a large mean: what a 16-bit format rounds away
+    xt = torch.tensor(x, dtype=torch.float64).to(dt)
+    desc = 'DTCWTForward(%s/%s, J=%d).to(%s) skip_hps=%s include_scale=%s on a %s image%s' % (b, s, J, dt, bin(skm), bin(inm), tuple(shape), (' with %r at %s' % (val, pos)) if val is not None else '')
+    replay = {'oracle': 'masks-special', 'b': b, 's': s, 'J': J, 'shape': list(shape), 'val': repr(val), 'skm': skm, 'inm': inm, 'dtype': str(dt), 'note': 'image drawn from the check PRNG'}
     sk = [bool((skm >> j) & 1) for j in range(J)]; inc = [bool((inm >> j) & 1) for j in range(J)]
 
     def eq(a, c):
-        a = a.numpy(); c = c.numpy()
+        a = a.double().numpy(); c = c.double().numpy()
         if a.shape != c.shape:
             return False
         fin = np.isfinite(a) & np.isfinite(c)
@@ -107,16 +112,22 @@ def oracle_masks_special(ck, b, s, J, shape, val, skm, inm):
             return False
         sc = max(1.0, float(np.max(np.abs(a[fin]))) if fin.any() else 1.0)
         return bool((np.abs(a[fin] - c[fin]) <= 1e-11 * sc).all())
+    if dt != torch.float64:
+        try:
+            with torch.no_grad():
+                DTCWTForward(biort=b, qshift=s, J=1).to(dt)(xt)
+        except Exception:
+            return None          # the format is refused: no verdict
     with torch.no_grad():
-        base_l, base_h = DTCWTForward(biort=b, qshift=s, J=J).double()(xt)
-        got_l, got_h = DTCWTForward(biort=b, qshift=s, J=J, skip_hps=sk, include_scale=inc).double()(xt)
+        base_l, base_h = DTCWTForward(biort=b, qshift=s, J=J).to(dt)(xt)
+        got_l, got_h = DTCWTForward(biort=b, qshift=s, J=J, skip_hps=sk, include_scale=inc).to(dt)(xt)
         for j in range(J):
             if not sk[j] and not eq(got_h[j], base_h[j]):
                 ck.fail(desc + ': band-pass level %d differs from the transform without masks' % (j + 1), replay); return 'diff'
         if any(inc):
             for j in range(J):
                 if inc[j]:
-                    sl, _ = DTCWTForward(biort=b, qshift=s, J=j + 1).double()(xt)
+                    sl, _ = DTCWTForward(biort=b, qshift=s, J=j + 1).to(dt)(xt)
                     if not eq(got_l[j], sl):
                         ck.fail(desc + ': scale %d is not the low-pass of the %d-level transform (values or non-finite footprint)' % (j + 1, j + 1), replay); return 'diff'
         elif not eq(got_l, base_l):
@@ -133,6 +144,9 @@ def oracle(ck, extended):
             J = 2
             for (skm, inm) in ((1, 0), (1, 3), (2, 1), (3, 2)):
                 rt.guard(ck, oracle_masks_special, ck, b, s, J, (rng.randint(12, 20) * 2, rng.randint(12, 20) * 2), val, skm, inm)
+    for dt_ in (torch.float16, torch.bfloat16, torch.float32):
+        for (skm, inm) in ((0, 1), (1, 3), (2, 5)):
+            rt.guard(ck, oracle_masks_special, ck, 'near_sym_a', 'qshift_a', 3, (rng.randint(12, 20) * 2, rng.randint(12, 20) * 2), None, skm, inm, dt_)
     lay = list(LAYOUTS)
     rng.shuffle(lay)
     for (o, ri) in (lay if not q else lay[:30]):
@@ -181,7 +195,8 @@ def replay(ck, path):
         return 1
     filt = [arr_from(a) for a in f['filt']]
     if f['oracle'] == 'masks-special':
-        oracle_masks_special(ck, f['b'], f['s'], f['J'], tuple(f['shape']), float(f['val']), f['skm'], f['inm'])
+        oracle_masks_special(ck, f['b'], f['s'], f['J'], tuple(f['shape']), None if f['val'] == 'None' else float(f['val']), f['skm'], f['inm'],
+                             {'torch.float16': torch.float16, 'torch.bfloat16': torch.bfloat16, 'torch.float32': torch.float32}.get(f.get('dtype'), None))
     elif f['oracle'] == 'layout':
         oracle_layout(ck, filt, [arr_from(a) for a in f['gfilt']], arr_from(f['x']), f['J'], f['o'], f['ri'])
     elif f['oracle'] == 'masks':
